@@ -36,9 +36,9 @@ func c17Fanout(r *R) {
 			}
 			ok := len(calls) == 1
 			if ok {
-				a0, a1 := pt.ArgDesc(calls[0], 0), pt.ArgDesc(calls[0], 1)
+				a0 := pt.ArgDesc(calls[0], 0)
 				ok = strings.Contains(a0, "Code:eventName.(datatransfer.EventCode)?#0") && strings.Contains(a0, "Message:channel.(channels/internal.ChannelState)?#0.Message") &&
-					a1 == "c.fromInternalChannelState(channel.(channels/internal.ChannelState)?#0)"
+					pt.ArgDeep(calls[0], 1) == "channels.channelState{ic:channel.(channels/internal.ChannelState)?#0}"
 			}
 			r.c.Check(ok, "C17.1", fmt.Sprintf("dispatch/path#%d", i+1), r.p.Pos(dp.Pos()), "notifier called once with the event and the resulting state", "dispatch does not call the notifier exactly once with (event code, state message) and the state it was given: "+pt.Describe())
 		}
